@@ -154,6 +154,12 @@ def mutate(rnd, plat, a, groups=True):
 
 
 # ------------------------------------------------------------------ spelling
+def group_key(members):
+    import zlib
+    norm = sorted({(b & ~m & ag.ALL, m) for b, m in [tuple(x) for x in members]})
+    return zlib.crc32(repr(norm).encode()) % 100000
+
+
 def spell_addr(rnd, plat, a):
     """-> (coq spelling, coq member list, text, member texts)"""
     if a[0] == "set":
@@ -163,7 +169,8 @@ def spell_addr(rnd, plat, a):
     # same text => same entry: the group name is a function of the member sets, members are spelled canonically
     import zlib
     norm = sorted({(b & ~m & ag.ALL, m) for b, m in a[2]})
-    name = f"{a[1]}-{zlib.crc32(repr(norm).encode()) % 100000}"
+    # (a 4th element fixes the name: the twin ACLs of kernels/aclshadow.py carry the name of the group they were made from)
+    name = f"{a[1]}-{a[3] if len(a) > 3 else group_key(a[2])}"
     srnd = random.Random(zlib.crc32(repr(norm).encode()))
     mem = [ag.spell(srnd, plat, b, m, dirty=False) for b, m in [tuple(x) for x in a[2]]]
     return f'(SGroup {coq_str(name)} [])', coq_list(c for c, _ in mem), f"{kw} {name}", [t for _, t in mem]
